@@ -110,6 +110,9 @@ pub enum Step {
     FullCycle,
     /// delete(key) issued while the worker is held before executing it; reads (and optionally an upsert) happen in the window
     HeldDelete { key: u64, then: Option<WriteOp> },
+    /// a multi-key iterator is created, yields its first item, then `write` (on a key not yet yielded) is issued and acknowledged, then the
+    /// iterator is drained: every `next()` is a read of its own
+    IterAcrossWrite { keys: Vec<u64>, variant: usize, write: WriteOp },
 }
 
 impl Step {
@@ -121,6 +124,8 @@ impl Step {
                 .with("keys", J::Arr(keys.iter().map(|k| J::Int(*k as i128)).collect())),
             Step::Advance { delta_ns } => J::obj().with("op", J::s("advance_clock")).with("delta_ns", J::Int(*delta_ns as i128)),
             Step::FullCycle => J::obj().with("op", J::s("full_sweep_cycle")),
+            Step::IterAcrossWrite { keys, variant, write } => J::obj().with("op", J::s(["multi_get_iterator", "multi_get_map_iterator"][*variant % 2]))
+                .with("keys", J::Arr(keys.iter().map(|k| J::Int(*k as i128)).collect())).with("after_the_first_item", write.to_json()),
             Step::HeldDelete { key, then } => {
                 let mut o = J::obj().with("op", J::s("delete_with_worker_held")).with("key", J::Int(*key as i128));
                 if let Some(then) = then { o.set("then", then.to_json()); }
@@ -1192,6 +1197,15 @@ impl<'a> Run<'a> {
                     for _ in 0..1 + self.rng.below(2) { let at = self.rng.below(keys.len() as u64 + 1) as usize; keys.insert(at, again); }
                     self.counts.inc("multi_key_reads_with_a_repeated_key");
                 }
+                // now and then: an iterator that is interrupted by an acknowledged write to a key it has not yielded yet
+                let distinct_tail: Vec<u64> = keys.iter().skip(1).copied().filter(|k| *k != keys[0] && self.readable(*k) && !self.at_deadline(*k)).collect();
+                if !distinct_tail.is_empty() && !self.cfg.hit_only && self.rng.chance(1, 3) {
+                    let target = *self.rng.pick(&distinct_tail);
+                    let write = if self.rng.chance(1, 2) { WriteOp::Delete { key: target } } else { WriteOp::Upsert { key: target, value: Some(self.fresh_token(target)), weight: None, ttl: None, remove_ttl: false } };
+                    // the value-only upsert re-weighs the key: only where that cannot push the total over what the history may demand
+                    let fits = match &write { WriteOp::Upsert { value: Some(v), .. } => { let w = computed_weight(self.cfg.sut.weight_mode, *v, false); self.cfg.pressure || w <= self.key_cap(target) } _ => true };
+                    if fits { return Step::IterAcrossWrite { keys, variant: self.rng.below(2) as usize, write }; }
+                }
                 Step::MultiRead { keys, variant: self.rng.below(3) as usize }
             }
             5 => Step::Advance { delta_ns: self.gen_advance() },
@@ -1218,6 +1232,37 @@ impl<'a> Run<'a> {
                 if self.cfg.hit_only && !self.readable(*key) { return; }
                 self.sig = fnv_step(self.sig, 0x4EAD ^ (self.state(*key) as u64) << 8);
                 self.checked_read(*key, *variant, "generated read");
+            }
+            Step::IterAcrossWrite { keys, variant, write } => {
+                if keys.iter().any(|k| self.at_deadline(*k)) { return; }
+                let cache = self.sut.cache.clone();
+                let refs: Vec<&u64> = keys.iter().collect();
+                let name = ["multi_get_iterator", "multi_get_map_iterator"][*variant % 2];
+                let mut plain = if *variant % 2 == 0 { Some(cache.multi_get_iterator(refs.clone())) } else { None };
+                let mut mapped = if *variant % 2 == 1 { Some(cache.multi_get_map_iterator(refs, |v| v)) } else { None };
+                let mut position = 0usize;
+                loop {
+                    if self.stop { return; }
+                    if position == 1 {
+                        // the write lands between two items; it is applied to the model like any other write of the history
+                        self.exec_write(write);
+                        if self.stop { return; }
+                        self.counts.inc("iterators_interrupted_by_an_acknowledged_write");
+                    }
+                    let item = match (&mut plain, &mut mapped) { (Some(it), _) => it.next(), (_, Some(it)) => it.next(), _ => None };
+                    match item {
+                        Some(value) => {
+                            if position >= keys.len() { self.fail(&["C02"], format!("C02/multi-read-length/{}", name), format!("{} over {} keys produced more items than keys", name, keys.len())); return; }
+                            self.lookups += 1;
+                            self.judge_read(keys[position], value, name, if position == 0 { "first item of an interrupted iterator" } else { "item yielded after a write that was acknowledged before this next() began" });
+                            position += 1;
+                        }
+                        None => break,
+                    }
+                }
+                if !self.stop && position != keys.len() {
+                    self.fail(&["C02"], format!("C02/multi-read-length/{}", name), format!("{} over {} keys produced {} results", name, keys.len(), position));
+                }
             }
             Step::MultiRead { keys, variant } => {
                 if keys.iter().any(|k| self.at_deadline(*k)) { return; }
